@@ -135,6 +135,8 @@ GROUPS.append(dict(BASE, name="shift_fixnum", entry="h_shift_fixnum", label="pro
                    unwindset="sexp_arithmetic_shift:2,log2i.0:66", bound="none: all fixnum operands and all fixnum counts; log2i unwound to its 64-step maximum",
                    instances=[{"name": "all_fixnums", "defs": {"LA": 1, "HA": 1, "KA": 0}}]))
 META = {
+ "level": "other",
+ "explanation": 'mixed: the fixnum path of arithmetic-shift is proved for all fixnums and shift counts; and/ior/xor, bit-count, integer-length, bit-set? and the bignum shifts are bounded by operand length (up to 3 words) with symbolic contents.',
  "trusted_base": ["CBMC 6.11.0 front end and SAT back end", "harness/prelude.h substitutions (exact-field accessors, sign test via shift, kind tests on registered objects under VERIF_KINDFOLD)",
                   "two's-complement wrap of signed arithmetic as GCC/Clang implement it"],
  "assumptions": ["registered heap objects are 8-byte aligned (kind tests on them return what an aligned pointer gives)",
